@@ -242,5 +242,5 @@ func (c *Ctx) Counter(name string) int { return c.res.Counters[name] }
 // ScratchCtx returns a context whose observations are discarded (baseline recording runs).
 func ScratchCtx(prop, tier string, seed int64) *Ctx {
 	return &Ctx{Property: prop, Tier: tier, Seed: seed, Engine: "scratch", Rand: rand.New(rand.NewSource(CaseSeed(seed, prop, "scratch", 0))),
-		res: NewResult(), distinct: map[string]map[uint64]struct{}{}, violSigs: map[string]int{}}
+		res: NewResult(), distinct: map[string]map[uint64]struct{}{}, violSigs: map[string]int{}, MaxViolPerSig: 2, MaxSamples: 2}
 }
